@@ -262,7 +262,8 @@ def check_generating(alph, alts, alone, nests, mus, table, rec, syntax='obj', av
         avd = dict(zip(alts, pat))
         Gref, Giref = R.G_and_Gi(lambda y: R.G_nested(y, ref_nests, alone, 1.0), V, avd)
         grp = table.describe_group(g)
-        avail_tag = 'avail=' + ('none-argument' if avform == 'none' else ('full' if all(pat) else 'partial'))
+        avail_tag = 'availability=' + ('None' if avform == 'none' else 'given')
+        alone_tag = 'alone=' + ('yes' if alone else 'no')
         case = dict(part='gen', alts=list(alts), alone=list(alone), nests=[list(n) for n in nests], mus=list(mus), group=grp,
                     syntax=syntax, avform=avform, uform=uform, pform=pform)
         ok = True
@@ -270,7 +271,7 @@ def check_generating(alph, alts, alone, nests, mus, table, rec, syntax='obj', av
         if all(avd[a] for a in alone):
             if not R.close(float(Gv[g]), Gref, REL, ABS):
                 ok = False
-                rec.violation(f'{ID}|generating-function-differs-from-closed-form|get_mev_generating_for_nested|{info["shape"]}|{avail_tag}',
+                rec.violation(f'{ID}|generating-function-differs-from-closed-form|get_mev_generating_for_nested|{alone_tag}|{avail_tag}',
                               f'get_mev_generating_for_nested = {Gv[g]!r} but G(e^V) = {Gref!r} at V={V} avail={pat} '
                               f'(alone={list(alone)} nests={[list(n) for n in nests]} mus={list(mus)}, nests as {syntax})',
                               case, expected=Gref, observed=float(Gv[g]))
@@ -287,14 +288,14 @@ def check_generating(alph, alts, alone, nests, mus, table, rec, syntax='obj', av
             lref = math.log(Giref[a])
             if not R.close(t, lref, REL, 1e-11):
                 ok = False
-                rec.violation(f'{ID}|published-term-differs-from-closed-form-log-derivative|get_mev_for_nested|{info["shape"]}|{avail_tag}',
+                rec.violation(f'{ID}|published-term-differs-from-closed-form-log-derivative|get_mev_for_nested|{alone_tag}|{avail_tag}',
                               f'get_mev_for_nested[{a}] = {t!r} but ln dG/dy = {lref!r} at V={V} avail={pat} ({info})',
                               dict(case, alt=a), expected=lref, observed=t)
             if not R.close(lg, t, REL, 1e-11):
                 ok = False
                 where = 'outside-every-nest' if a in alone else 'in-nest'
                 rec.violation(f'{ID}|published-term-is-not-log-derivative-of-published-generating-function|alternative-{where}|'
-                              f'{info["shape"]}|{avail_tag}',
+                              f'{avail_tag}',
                               f'ln(d get_mev_generating_for_nested / dV_{a}) - V_{a} = {lg!r} (engine gradient {d!r}) but '
                               f'get_mev_for_nested[{a}] = {t!r} (closed form {lref!r}) at V={V} avail={pat} '
                               f'(alone={list(alone)} nests={[list(n) for n in nests]} mus={list(mus)}, nests as {syntax})',
@@ -324,7 +325,7 @@ def tasks(tier, seed):
             t.append(dict(part='nested', J=J, structs=ch, seed=seed, tier=tier))
     for J, M, ns, pa, per in B.cnl_config(tier):
         n = len(R.cnl_structures(alph['labels'][:J], M, alph['splits'][:ns]))
-        for ch in B._chunks(range(n), per * 2):
+        for ch in B._chunks(range(n), per):
             t.append(dict(part='cnl', J=J, M=M, ns=ns, pa=pa, structs=ch, seed=seed, tier=tier))
     return t
 
